@@ -333,6 +333,8 @@ class _Run:
         self.case = case
         self.logs = []
         self.crash_origin = None
+        self.negwin_empty_frames = []
+        self.executed = []
         self.bad = False          # something outside the modelled alphabet happened -> no Coq case
         self.peer_errors = []
         self.outbox = {}
@@ -470,14 +472,40 @@ class _Run:
                 p = self.peers[t[1]]
                 if p.state_machine.state == h2.connection.ConnectionState.CLOSED:
                     continue      # the peer has said GOAWAY; what crosses it on the wire is not its problem
-                try:
-                    evs = p.receive_data(bytes.fromhex(t[2]))
-                except Exception as exc:
-                    self.peer_errors.append([t[1], type(exc).__name__, str(exc)[:120]])
-                    evs = []
+                evs = self._feed_peer(t[1], p, bytes.fromhex(t[2]))
                 self.outbox[t[1]] += p.data_to_send()
                 for e in evs:
                     self._peer_event(t[1], e)
+
+    def _feed_peer(self, o, p, data):
+        """frame by frame.  hyper-h2 as a receiver treats ANY DATA frame on a stream whose window is negative as a flow-control
+        error, also the empty ones RFC 9113 6.9.1 allows; such a frame is noted (the shipped send_data emits it) and let through."""
+        evs = []
+        pos = 0
+        if data.startswith(b"PRI * HTTP/2.0"):
+            pos = 24
+        chunks = [data[:pos]] if pos else []
+        while pos + 9 <= len(data):
+            ln = int.from_bytes(data[pos:pos + 3], "big")
+            chunks.append(data[pos:pos + 9 + ln])
+            pos += 9 + ln
+        if pos < len(data):
+            chunks.append(data[pos:])
+        for c in chunks:
+            wm = saved = None
+            if len(c) >= 9 and c[3] == 0 and c[:3] == b"\0\0\0":
+                st = p.streams.get(int.from_bytes(c[5:9], "big") & 0x7FFFFFFF)
+                if st is not None and st._inbound_window_manager.current_window_size < 0:
+                    wm = st._inbound_window_manager
+                    saved, wm.current_window_size = wm.current_window_size, 0
+                    self.negwin_empty_frames.append([o, bool(c[4] & 1)])
+            try:
+                evs += p.receive_data(c)
+            except Exception as exc:
+                self.peer_errors.append([o, type(exc).__name__, str(exc)[:120]])
+            if wm is not None:
+                wm.current_window_size = saved
+        return evs
 
     def _peer_event(self, o, e):
         ev = _S["h2"].events
@@ -616,6 +644,7 @@ class _Run:
         elif k == "sgoaway":
             o = max(self.peers) if self.peers else None
             if o not in (None, 0):
+                self.executed.append("sgoaway")
                 self._flush(o)    # GOAWAY travels alone: exceptions inside BufferedH2Connection.receive_data are not modelled
                 self._peer_op(o, lambda p: p.close_connection())
                 self._flush(o)
@@ -623,6 +652,7 @@ class _Run:
             o = max(self.peers) if self.peers else None
             if o not in (None, 0) and o < len(self.d.conns) and (self.d.conns[o].state & _S["CS"].CAN_READ):
                 self._flush(o)
+                self.executed.append("sclose")
                 self.d.close(o)
                 self._pump()
 
@@ -708,6 +738,7 @@ class _Run:
             elif k == "cclose":
                 if d.conns[0].state & S["CS"].CAN_READ:
                     self._flush(0)
+                    self.executed.append("cclose")
                     d.close(0)
                     self._pump()
             elif k == "fl":
@@ -821,7 +852,8 @@ class _Run:
         cre = [{**c, "body": hx(c["body"]), "rbody": hx(c["rbody"])} for c in self.creqs]
         sre = [{**s, "body": hx(s["body"]), "sbody": hx(s["sbody"])} for s in self.sreqs]
         return {"logs": logs, "bad": self.bad, "fixed": _S["fixed"], "fixq": _S["fixq"], "peer_errors": self.peer_errors, "crashed": d.crashed, "creqs": cre, "sreqs": sre,
-                "flows": flows, "hooks_left": len(d.deferred),
+                "flows": flows, "hooks_left": len(d.deferred), "negwin_empty_frames": self.negwin_empty_frames,
+                "conn_closed_ops": self.executed,
                 "alive": [bool(c.state & _S["CS"].CAN_READ) and bool(c.state & _S["CS"].CAN_WRITE) for c in d.conns]}
 
 
@@ -933,8 +965,141 @@ def coq_case(case, obs):
     return "Case %s" % clist(logs, "connlog")
 
 
+def _is_prefix(a, b):
+    return b.startswith(a)
+
+
 def oracle(case, obs):
-    return []
+    """the property evaluated on the real objects: markers in headers / bodies / trailers identify every stream end to end"""
+    v = []
+
+    def bad(key, what):
+        if not any(x["key"] == key for x in v):
+            v.append({"key": key, "what": what})
+
+    wf = case["k"] == "e2e" or case.get("wf")
+    if obs["crashed"]:
+        name, msg = obs["crashed"]
+        if name == "FlowControlError" and not obs["fixed"]:
+            bad("negative-window-crash", f"BufferedH2Connection.send_data raised out of the layer: {msg[:80]}")
+        elif wf:
+            bad("crash-" + name, f"exception escaped the connection object: {msg[:80]}")
+    if obs["negwin_empty_frames"]:
+        if not obs["fixed"]:
+            bad("negative-window-crash", "empty DATA frame sent on a stream whose flow-control window is negative (data[:window] slice)")
+        else:
+            bad("negative-window-empty-frame", "empty DATA frame sent on a stream whose flow-control window is negative")
+    for o, name, msg in obs["peer_errors"]:
+        bad("peer-protocol-error", f"conforming h2 peer on connection {o} rejected the proxy output: {name} {msg[:60]}")
+
+    # ---- mapping and queue of every Http2Client (implementation state)
+    for l in obs["logs"]:
+        if l["role"] != "client" or not l["steps"]:
+            continue
+        last = None
+        for s in l["steps"]:
+            sn = s.get("snap")
+            if sn is None or s.get("exc"):
+                continue
+            last = sn
+            if wf:
+                our, their = dict(map(tuple, sn["our"])), dict(map(tuple, sn["their"]))
+                if any(their.get(j) != c for c, j in our.items()) or any(our.get(c) != j for j, c in their.items()):
+                    bad("mapping-not-bijective", f"our_stream_id={sn['our']} their_stream_id={sn['their']}")
+                if len(set(our.values())) != len(our):
+                    bad("server-stream-shared", f"two client streams on one server stream: {sn['our']}")
+            if not sn["dead"]:
+                pass
+            elif sn["queue"]:
+                bad("queued-stream-lost-on-close" if not obs["fixq"] else "queued-stream-left-after-close",
+                    f"connection closed while client streams {[k for k, _ in sn['queue']]} were waiting for capacity: "
+                    "they are never opened and get no error")
+        if last is not None and not last["dead"]:
+            got = [k for k, _ in last["our"]] + [k for k, _ in last["queue"]]
+            if got != l["arrivals"]:
+                bad("queue-order", f"opened {last['our']} + waiting {last['queue']} is not the arrival order {l['arrivals']}")
+
+    if case["k"] == "direct":
+        # wire view of a directly driven Http2Client: client stream id == marker
+        seen = [s["marker"] for s in obs["sreqs"]]
+        if len(set(seen)) != len(seen) and wf:
+            bad("stream-duplicated", f"request markers on the wire: {seen}")
+        for l in obs["logs"]:
+            if l["role"] == "client" and l["steps"]:
+                sn = [s["snap"] for s in l["steps"] if s.get("snap") and not s.get("exc")]
+                if sn and wf and seen != [k for k, _ in sn[-1]["our"]][:len(seen)]:
+                    bad("open-order", f"requests reached the server in order {seen}, opened in order {sn[-1]['our']}")
+        given = {}
+        for op in case["ops"]:
+            if op[0] == "ev" and op[1] == "data":
+                given[op[2]] = given.get(op[2], b"") + bytes.fromhex(op[3])
+        if wf:
+            for s in obs["sreqs"]:
+                if not _is_prefix(bytes.fromhex(s["body"]), given.get(s["marker"], b"")):
+                    bad("request-body-mixup", f"server stream {s['j']} (marker {s['marker']}) carries bytes that are not a prefix of that stream's data")
+        return v
+
+    # ---- end to end
+    creq = {c["marker"]: c for c in obs["creqs"]}
+    markers = [s["marker"] for s in obs["sreqs"]]
+    if len(set(markers)) != len(markers):
+        bad("stream-duplicated", f"a request reached the server twice: markers {markers}")
+    tok_owner = {}
+    for s in obs["sreqs"]:
+        if s["resp"] is not None:
+            tok_owner[s["resp"]] = s
+    quiet = "drain" in [op[0] for op in case["ops"]] and not obs["conn_closed_ops"] and not obs["crashed"] \
+        and not obs["peer_errors"] and not obs["hooks_left"]
+    for s in obs["sreqs"]:
+        c = creq.get(s["marker"])
+        if c is None:
+            bad("request-from-nowhere", f"server saw marker {s['marker']} that no client stream sent")
+            continue
+        sb, cbd = bytes.fromhex(s["body"]), bytes.fromhex(c["body"])
+        if not _is_prefix(sb, cbd):
+            bad("request-body-mixup", f"server stream {s['j']} for request {s['marker']} carries {s['body'][:40]}.., client sent {c['body'][:40]}..")
+        if s["ended"] and (sb != cbd or not c["ended"] or s["trl"] != c["trl"]):
+            bad("request-mismatch", f"request {s['marker']} ended upstream with body/trailers different from what the client sent")
+        if quiet and c["ended"] and c["rst"] is None and s["rst"] is None and s["srst"] is None and c["rrst"] is None \
+                and not s["ended"] and not c["resp"]:
+            bad("request-incomplete", f"request {s['marker']} was completely sent by the client but did not completely reach the server")
+    for c in obs["creqs"]:
+        for status, tok in c["resp"]:
+            if tok is None:
+                continue
+            s = tok_owner.get(tok)
+            if s is None or s["marker"] != c["marker"]:
+                bad("response-on-wrong-stream", f"client stream {c['sid']} (request {c['marker']}) received response {tok} "
+                    f"sent for request {s['marker'] if s else None}")
+                continue
+            rb, sbd = bytes.fromhex(c["rbody"]), bytes.fromhex(s["sbody"])
+            if not _is_prefix(rb, sbd):
+                bad("response-body-mixup", f"client stream {c['sid']} received {c['rbody'][:40]}.., server sent {s['sbody'][:40]}..")
+            if c["rended"] and (rb != sbd or c["rtrl"] != s["strl"] or not s["sended"]):
+                bad("response-mismatch", f"response for request {c['marker']} ended at the client with body/trailers different from the server's")
+        if c["rtrl"] is not None and not any(t is not None for _, t in c["resp"]):
+            bad("trailers-without-response", f"client stream {c['sid']} received trailers but no response")
+    if quiet:
+        for s in obs["sreqs"]:
+            c = creq.get(s["marker"])
+            if c is None or s["resp"] is None or not s["sended"] or s["srst"] is not None or s["rst"] is not None:
+                continue
+            if c["ended"] and c["rst"] is None and c["rrst"] is None and not (c["rended"] and any(t == s["resp"] for _, t in c["resp"])):
+                bad("response-incomplete", f"complete response {s['resp']} for request {s['marker']} did not completely reach the client")
+    for f in obs["flows"]:
+        c = creq.get(f["marker"])
+        if c is None:
+            continue
+        if not f["req_streamed"] and f["req"] is not None and f["req"] != c["body"] and f["req"] != "":
+            bad("flow-request-mixup", f"flow of request {f['marker']} holds request body {f['req'][:40]}.., client sent {c['body'][:40]}..")
+        r = f["resp"]
+        if r and r["tok"] is not None:
+            s = tok_owner.get(r["tok"])
+            if s is None or s["marker"] != f["marker"]:
+                bad("flow-response-mixup", f"flow of request {f['marker']} holds response {r['tok']} of request {s['marker'] if s else None}")
+            elif not r["streamed"] and r["body"] not in (None, "") and r["body"] != s["sbody"]:
+                bad("flow-response-mixup", f"flow of request {f['marker']} holds response body {r['body'][:40]}.., server sent {s['sbody'][:40]}..")
+    return v
 
 
 def nontrivial(case, obs):
@@ -947,4 +1112,28 @@ def nontrivial(case, obs):
 
 
 def classify(case, obs):
-    return [case["k"]]
+    t = [case["k"] if case["k"] == "e2e" else ("direct-wf" if case.get("wf") else "direct-illformed")]
+    if obs["bad"]:
+        t.append("skipped-unmodelled")
+    if any(l["nested"] for l in obs["logs"]):
+        t.append("skipped-nested")
+    if obs["crashed"]:
+        t.append("crash")
+    snaps = [s["snap"] for l in obs["logs"] for s in l["steps"] if s.get("snap")]
+    if any(sn.get("queue") for sn in snaps):
+        t.append("queued")
+    if any(len(sn.get("queue", [])) >= 2 for sn in snaps):
+        t.append("queued>=2")
+    if any(sn["bufs"] for sn in snaps):
+        t.append("buffered")
+    if any(sn["trl"] for sn in snaps):
+        t.append("trailers-queued")
+    if any(sn["dead"] for sn in snaps):
+        t.append("conn-dead")
+    mx = max([len(sn.get("our", [])) for sn in snaps] or [0])
+    t.append("opened=%d" % min(mx, 4))
+    if obs["negwin_empty_frames"]:
+        t.append("negative-window")
+    if any(len(l["steps"]) and l["role"] == "server" and any(o[0] == "F" and o[1] == "H" and o[3] == "errresp" for s in l["steps"] for o in s["out"]) for l in obs["logs"]):
+        t.append("error-response")
+    return t
